@@ -1,7 +1,7 @@
 ---------------------------- MODULE HsmsApp ----------------------------
 (* The library in use: a host and an equipment over one HSMS-SS connection (SEMI E37) exchanging    *)
 (* SECS-II transactions (SEMI E5) from a small GEM-like message dictionary.                          *)
-(*   - connection state machine NOT_CONNECTED / NOT_SELECTED / SELECTED, select, linktest, separate   *)
+(*   - connection state machine NOT_CONNECTED / NOT_SELECTED / SELECTED, select, deselect, linktest, separate *)
 (*   - T3 (reply), T6 (control transaction) and T7 (not selected) time-outs as separate actions       *)
 (*   - system bytes as transaction ids, replies paired with their primaries, late replies dropped     *)
 (*   - the equipment answers what it cannot handle with S9F1/3/5/7 and a time-out with S9F9, each      *)
@@ -132,6 +132,9 @@ OpenReq(e, kind, x) == open' = [open EXCEPT ![e] = @ \cup {[kind |-> kind, sys |
 SendSelect(e) == /\ st[e] = "NOT_SELECTED" /\ (~\E t \in open[e] : t.kind = "select") /\ CanSend(e) /\ Fresh(e)
                  /\ LET x == Ctrl(1, 65535, 0, Sys(e)) IN Put(e, x) /\ OpenReq(e, "select", x) /\ Log("Send", e, x, NoMsg, FALSE)
                  /\ Take(e) /\ UNCHANGED st /\ Quiet
+SendDeselect(e) == /\ st[e] = "SELECTED" /\ (~\E t \in open[e] : t.kind = "deselect") /\ CanSend(e) /\ Fresh(e)
+                   /\ LET x == Ctrl(3, 65535, 0, Sys(e)) IN Put(e, x) /\ OpenReq(e, "deselect", x) /\ Log("Send", e, x, NoMsg, FALSE)
+                   /\ Take(e) /\ UNCHANGED st /\ Quiet
 SendLinktest(e) == /\ (~\E t \in open[e] : t.kind = "linktest") /\ CanSend(e) /\ Fresh(e)
                    /\ LET x == Ctrl(5, 65535, 0, Sys(e)) IN Put(e, x) /\ OpenReq(e, "linktest", x) /\ Log("Send", e, x, NoMsg, FALSE)
                    /\ Take(e) /\ UNCHANGED st /\ Quiet
@@ -171,6 +174,12 @@ Recv(e) ==
                                  THEN /\ NoReply /\ Close(e, "select", SysOf(x))
                                       /\ st' = [st EXCEPT ![e] = IF x.hdr[4] = 0 THEN "SELECTED" ELSE @] /\ UNCHANGED nextSys /\ Quiet
                                  ELSE Reject(3) /\ UNCHANGED <<st, open, nextSys>> /\ Quiet
+            [] STypeOf(x) = 3 -> /\ Reply(Ctrl(4, 65535, IF st[e] = "SELECTED" THEN 0 ELSE 1, SysOf(x)))
+                                 /\ st' = [st EXCEPT ![e] = "NOT_SELECTED"] /\ UNCHANGED <<open, nextSys>> /\ Quiet
+            [] STypeOf(x) = 4 -> IF HasOpen(e, "deselect", SysOf(x))
+                                 THEN /\ NoReply /\ Close(e, "deselect", SysOf(x))
+                                      /\ st' = [st EXCEPT ![e] = IF x.hdr[4] = 0 THEN "NOT_SELECTED" ELSE @] /\ UNCHANGED nextSys /\ Quiet
+                                 ELSE Reject(3) /\ UNCHANGED <<st, open, nextSys>> /\ Quiet
             [] STypeOf(x) = 5 -> Reply(Ctrl(6, 65535, 0, SysOf(x))) /\ UNCHANGED <<st, open, nextSys>> /\ Quiet
             [] STypeOf(x) = 6 -> IF HasOpen(e, "linktest", SysOf(x))
                                  THEN NoReply /\ Close(e, "linktest", SysOf(x)) /\ UNCHANGED <<st, nextSys>> /\ Quiet
@@ -190,7 +199,7 @@ Recv(e) ==
                 ELSE UNCHANGED <<open, nDelivered>> /\ nDropped' = nDropped + 1
 
 Next == (Depth = 0 \/ Len(hist) < Depth) /\
-        (Connect \/ Disconnect \/ \E e \in Ent : \/ SendSelect(e) \/ SendLinktest(e) \/ SendSeparate(e) \/ SendPrimary(e)
+        (Connect \/ Disconnect \/ \E e \in Ent : \/ SendSelect(e) \/ SendDeselect(e) \/ SendLinktest(e) \/ SendSeparate(e) \/ SendPrimary(e)
                                                  \/ T3Expire(e) \/ T6Expire(e) \/ T7Expire(e) \/ Recv(e))
 Spec == Init /\ [][Next]_vars
 \* every message in flight is eventually received and every time-out that stays due eventually fires
@@ -220,7 +229,7 @@ RepliesPaired == \A e \in Ent : \A x \in InFlight(e) :
 \* system bytes identify a transaction: an entity's open transactions have different ones, each of its own making
 SysUnique == \A e \in Ent : /\ \A t, u \in open[e] : t.sys = u.sys => t = u
                             /\ \A t \in open[e] : t.sys[1] = (IF e = "H" THEN 1 ELSE 2) /\ t.sys[4] < nextSys[e]
-OneOpenPerKind == \A e \in Ent : \A k \in {"select", "linktest"} : Cardinality({t \in open[e] : t.kind = k}) <= 1
+OneOpenPerKind == \A e \in Ent : \A k \in {"select", "deselect", "linktest"} : Cardinality({t \in open[e] : t.kind = k}) <= 1
 \* data is handed to the application in SELECTED only (an action property: the counter is hidden by the VIEW)
 DeliverOnlySelected == [][nDelivered' # nDelivered => \E e \in Ent : st[e] = "SELECTED"]_vars
 \* liveness (under FairSpec): every transaction is closed in the end - by its reply, a reject, a time-out or the loss of the connection
